@@ -197,3 +197,52 @@ func armed(c *rig.Ctx) {
 	})
 }
 
+
+// stores: while a transfer runs (LCD off, so the OAM bug is out of the question) the CPU stores a
+// byte somewhere in FE00-FEFF, at every cycle of the transfer. Whatever such a store does to the
+// byte it addresses, every other byte of OAM must end up as the source byte that was copied.
+func stores(c *rig.Ctx) {
+	c.Require("transfers_with_a_cpu_store")
+	c.Part("stores", 168, func(i int64, r *rig.Rng) {
+		at := int(i) // the store follows this many cycles after the FF46 store
+		for rep := 0; rep < 6; rep++ {
+			m := rig.MustNew(rig.BlankROM(0, 0, 0), rig.Opts{})
+			for k := 0; k < 4; k++ {
+				m.Step()
+			}
+			m.Mem.Write(0xff40, 0x11)
+			page := uint8(0xc0 + r.Intn(0x20))
+			var src [160]uint8
+			for k := range src {
+				src[k] = r.U8()
+				m.Mem.Write(uint16(page)<<8+uint16(k), src[k])
+			}
+			for k := 0; k < 160; k++ {
+				m.OAM.XPoke(k, r.U8())
+			}
+			m.Mem.Write(0xff46, page)
+			x := r.Intn(0x100)
+			if rep%2 == 0 {
+				x = 0xa0 + r.Intn(0x60) // the unused area: no byte of OAM is addressed at all
+			}
+			v := r.Pick8([]uint8{0x00, 0xff, r.U8(), r.U8()})
+			for t := 0; t < 175; t++ {
+				if t == at {
+					m.Mem.Write(0xfe00+uint16(x), v)
+				}
+				m.PPU.EndMachineCycle()
+				m.Mem.EndMachineCycle()
+			}
+			snap := m.OAM.XSnapshot()
+			for k := 0; k < 160; k++ {
+				if snap[k] == src[k] || (k == x && snap[k] == v) {
+					continue
+				}
+				c.Violate("store-during-dma-contents", fmt.Sprintf("LCD off, transfer from page %02X, CPU store of %02X to FE%02X %d cycles after the FF46 store: afterwards OAM[%02X] holds %02X, the source byte was %02X", page, v, x, at, k, snap[k], src[k]), nil)
+				return
+			}
+			c.Count("transfers_with_a_cpu_store", 1)
+		}
+		c.Exact(1)
+	})
+}
